@@ -43,7 +43,7 @@ def judge(case):
     if case.get("bg2") is not None:
         _judge_one(dict(case, bg=case["bg2"], fix=False))
         _judge_one(dict(case, fix=False))
-        info["cls"].append("second-background")
+        info.setdefault("cls", []).append("second-background")
     return info
 
 
